@@ -153,10 +153,10 @@ def _queue(i, f, base, fields):
   pf = []
   for j in range(i % 3):
     off = base + 8 + len(props)
-    if (i + j) % 2 == 0:
+    if f % 7 != 6 or (i + j) % 2 == 0:
       p = struct.pack("!HH4xH6x", 1, 16, (f + j) % 1001)    # OFPQT_MIN_RATE
     else:
-      p = struct.pack("!HH4x", 0, 8)                        # OFPQT_NONE
+      p = struct.pack("!HH4x", 0, 8)                        # OFPQT_NONE (only for f % 7 == 6)
     pf.append({"name": "queue[%d].prop[%d].len" % (i, j), "off": off + 2, "size": 2, "value": len(p)})
     props += p
   length = 8 + len(props)
